@@ -61,6 +61,8 @@ pub enum SOp {
     Block(String, i32, i32),
     /// clear contents at offset (dr,dc), height, width
     Clear(i32, i32, i32, i32),
+    /// clear all (contents, style, links) at offset (dr,dc), height, width
+    ClearAll(i32, i32, i32, i32),
     InsRow(i32),
     DelRow(i32),
     InsCol(i32),
@@ -80,6 +82,7 @@ impl SOp {
             SOp::Size(..) => "size".into(),
             SOp::Block(k, ..) => format!("block-{}", k),
             SOp::Clear(..) => "clear".into(),
+            SOp::ClearAll(..) => "clear-all".into(),
             SOp::InsRow(_) => "insert-row".into(),
             SOp::DelRow(_) => "delete-row".into(),
             SOp::InsCol(_) => "insert-col".into(),
@@ -108,6 +111,13 @@ impl SOp {
                 }
             }
             SOp::Clear(dr, dc, h, w) => um.range_clear_contents(&Area {
+                sheet: 0,
+                row: r0 + dr,
+                column: c0 + dc,
+                height: *h,
+                width: *w,
+            }),
+            SOp::ClearAll(dr, dc, h, w) => um.range_clear_all(&Area {
                 sheet: 0,
                 row: r0 + dr,
                 column: c0 + dc,
@@ -155,6 +165,14 @@ pub fn alphabet(base: &Base, full: bool) -> Vec<SOp> {
     v.push(SOp::Clear(-1, 1, 1, 1));
     v.push(SOp::Clear(0, 0, 1, 1));
     v.push(SOp::Clear(0, 0, 3, 3));
+    // clear-all of the anchor alone, of a row of cells whose last one is the anchor (the spill reaches outside the
+    // area), and of the anchor with a neighbour to its right
+    v.push(SOp::ClearAll(0, 0, 1, 1));
+    v.push(SOp::ClearAll(0, -1, 1, 2));
+    if full {
+        v.push(SOp::ClearAll(0, 0, 1, 2));
+        v.push(SOp::Clear(0, -1, 1, 2));
+    }
     // structure through the block
     v.push(SOp::InsRow(1));
     v.push(SOp::DelRow(1));
